@@ -69,6 +69,20 @@ func c10Draw(rt *rapid.T) c10Case {
 			desc = append(desc, "other-eds:"+c.Name)
 		}
 	}
+	// override annotations under this ExtendedDaemonSet's prefix that name no container of the template: left over from
+	// a container that was removed or renamed, or meant for a sibling ExtendedDaemonSet called foo.<something>
+	switch rapid.SampledFrom([]string{"none", "none", "none", "stale-container", "sibling-eds", "both"}).Draw(rt, "ann-extra") {
+	case "stale-container":
+		k.NodeAnn[fmt.Sprintf(c10AnnKey, "ns1", "foo", "removed-container")] = `{"requests":{"cpu":"100m"}}`
+		desc = append(desc, "override:removed-container")
+	case "sibling-eds":
+		k.NodeAnn[fmt.Sprintf(c10AnnKey, "ns1", "foo.canary", "c0")] = `{"limits":{"memory":"1Gi"}}`
+		desc = append(desc, "override-of-sibling:foo.canary")
+	case "both":
+		k.NodeAnn[fmt.Sprintf(c10AnnKey, "ns1", "foo", "removed-container")] = `{"requests":{"cpu":"100m"}}`
+		k.NodeAnn[fmt.Sprintf(c10AnnKey, "ns1", "foo.canary", "c0")] = `{"limits":{"memory":"1Gi"}}`
+		desc = append(desc, "override:removed-container", "override-of-sibling:foo.canary")
+	}
 	if rapid.IntRange(0, 2).Draw(rt, "hasSetting") != 0 {
 		s := &edsv1.ExtendedDaemonsetSetting{ObjectMeta: metav1.ObjectMeta{Namespace: "ns1", Name: "setting-a"},
 			Spec:   edsv1.ExtendedDaemonsetSettingSpec{Reference: &autoscalingv1.CrossVersionObjectReference{Kind: "ExtendedDaemonset", Name: "foo"}},
@@ -383,7 +397,7 @@ func runC10(k c10Case) (vs []mon.V, err error) {
 }
 
 func TestC10CreatedPod(t *testing.T) {
-	rec := evid.New("TestC10CreatedPod", "C10", "pod template (nodeSelector, 0-2 required affinity terms with or without matchFields on metadata.name, tolerations, 1-3 containers with resources) x node (labels, override annotations well-formed / malformed / of another ExtendedDaemonSet) x optional valid setting (subset of containers, container absent from the template) x both node-assignment modes; oracle on CreatePodFromDaemonSetReplicaSet (pin, owner, labels, hash, default tolerations, resources = annotation else setting else template), then round trip through the API (JSON) and the exported ManageDeployment with an unlimited budget: fresh pod kept, and replaced after a template change, an annotation add/remove, or a changed setting demand; non-trivial = affinity in the template, >= 2 containers, an override annotation or an applicable setting; distinct by JSON of the inputs")
+	rec := evid.New("TestC10CreatedPod", "C10", "pod template (nodeSelector, 0-2 required affinity terms with or without matchFields on metadata.name, tolerations, 1-3 containers with resources) x node (labels, override annotations well-formed / malformed / of another ExtendedDaemonSet / under this one's prefix for a container the template does not have or for a sibling named foo.<x>) x optional valid setting (subset of containers, container absent from the template) x both node-assignment modes; oracle on CreatePodFromDaemonSetReplicaSet (pin, owner, labels, hash, default tolerations, resources = annotation else setting else template), then round trip through the API (JSON) and the exported ManageDeployment with an unlimited budget: fresh pod kept, and replaced after a template change, an annotation add/remove, or a changed setting demand; non-trivial = affinity in the template, >= 2 containers, an override annotation or an applicable setting; distinct by JSON of the inputs")
 	t.Cleanup(func() {
 		if !t.Failed() {
 			rec.Done()
